@@ -134,7 +134,11 @@ func (f *foreignClients) bscUpdate(op sim.Op) {
 func (f *foreignClients) ethUpdate(op sim.Op) {
 	a := f.a
 	relayer := a.Accounts[world.RelayerIdx]
-	hdr := lcgen.EthChild(f.ethLatest, f.ethLatest.Time+12, f.ethLatest.GasLimit, f.ethLatest.GasLimit/2, crypto.Keccak256Hash([]byte(fmt.Sprintf("e%d", f.ethLatest.Height.RevisionHeight))), byte(op.A))
+	// block intervals: mostly 12 s, sometimes 1 s, sometimes long gaps (the difficulty adjustment saturates at -99
+	// from 900 s on); gas used at / just above / far above the target
+	dt := []uint64{12, 12, 1, 1000, 5000, 12}[mod(op.D, 6)]
+	used := []uint64{f.ethLatest.GasLimit / 2, f.ethLatest.GasLimit/2 + 1, f.ethLatest.GasLimit, 0}[mod(op.B, 4)]
+	hdr := lcgen.EthChild(f.ethLatest, f.ethLatest.Time+dt, f.ethLatest.GasLimit, used, crypto.Keccak256Hash([]byte(fmt.Sprintf("e%d", f.ethLatest.Height.RevisionHeight))), byte(op.A))
 	if mod(op.C, 5) == 4 {
 		hdr.BaseFee = "7"
 	}
